@@ -1035,7 +1035,7 @@ fn run_faulty_threaded(c: &FaultCase) -> FaultRun {
         });
     }
     let mut outcomes: Vec<Option<Outcome>> = (0..n).map(|_| None).collect();
-    let (_done, stalled) = fault_wait(&conns, Duration::from_secs(8), Duration::from_secs(90), || {
+    let (_done, stalled) = fault_wait(&conns, Duration::from_secs(10), Duration::from_secs(90), || {
         for (ix, h) in handles.iter().enumerate() {
             if outcomes[ix].is_none() {
                 outcomes[ix] = match h {
@@ -1099,7 +1099,7 @@ fn run_faulty_tokio(c: &FaultCase) -> FaultRun {
         }
     }
     let o2 = outcomes.clone();
-    let (_done, stalled) = fault_wait(&conns, Duration::from_secs(8), Duration::from_secs(90), || o2.lock().unwrap().iter().all(|o| o.is_some()));
+    let (_done, stalled) = fault_wait(&conns, Duration::from_secs(10), Duration::from_secs(90), || o2.lock().unwrap().iter().all(|o| o.is_some()));
     let _ = client.close();
     let (gone, _) = fault_wait(&conns, Duration::from_secs(5), Duration::from_secs(20), || client.start(None).is_err());
     let outs = outcomes.lock().unwrap().clone();
